@@ -109,6 +109,16 @@ def extra(ctx, out, quick_n=36, thorough_n=500):
         out.corr_errors.extend(errs)
         return set(idx[i] for i in bad), cases
 
+    # tie to the code: the same programs (two_foreign variants included) through the whole-program correspondence of
+    # gen_main2 (implementation's final system or error class vs build2)
+    import gen_main
+    corr = [gen_main2.emit_case(progs[i], gen_main.run_impl(metas[i])) for i in range(len(progs))]
+    cbad, cerrs = common.run_bool_cases(gen_main2.FAMILY, gen_main2.REQUIRES, corr, tag='plumbC' + ctx.pid, shard=8)
+    out.corr_errors.extend(cerrs)
+    for i in cbad[:5]:
+        out.disagreements.append({'main2_program': metas[i], 'coq': corr[i][:3000]})
+    if not progs:
+        out.corr_errors.append('gen_plumb: no program was generated (nothing evaluated)')
     not_built, _ = run('is_ok (build2 %s)', 'plumbB')
     built = [i for i in range(len(progs)) if i not in not_built]
     sem_false, _ = run('sem_ok2 %s', 'plumbS', built)
